@@ -1,5 +1,6 @@
 //! l2: whole-stack simulator monitors; usage: l2 <property> --seed S --tier quick|thorough --shard i --shards n [--budget N] --out frag.json [--replay file]
 mod c02;
+mod c04;
 mod c15;
 mod c17;
 mod c19;
@@ -12,6 +13,9 @@ pub mod workload;
 
 use vcore::{Args, Report};
 
+#[global_allocator]
+static ALLOC: vcore::alloc::CountingAlloc = vcore::alloc::CountingAlloc;
+
 fn main() {
     let args = Args::parse();
     let prop = args.pos.first().cloned().unwrap_or_default();
@@ -19,6 +23,7 @@ fn main() {
     let mut rep = Report::new(&prop.to_uppercase(), args.seed());
     match prop.as_str() {
         "c02" => c02::run(&args, &mut rep),
+        "c04" => c04::run(&args, &mut rep),
         "c01" => c02::run_leg(&args, &mut rep, "C01"),
         "c07" => c02::run_leg(&args, &mut rep, "C07"),
         "c19" => c19::run(&args, &mut rep),
